@@ -351,6 +351,11 @@ def race(ctx, desc):
             if w.deep.started:
                 ctx.violation('C14/race/still-started', 'started is True after shutdown', case)
                 return
+            if w.deep.trigger_handler._tp_config:
+                ids = sorted({a.id for t in w.deep.trigger_handler._tp_config for a in t.actions})
+                ctx.violation('C14/race/acts-after-shutdown', f'after shutdown returned the handler still has tracepoints {ids} installed (a config update applied during/after '
+                                                              f'shutdown): threads that keep calling the trace function keep acting', case, {'log': [list(map(str, e)) for e in sched.log]})
+                return
             if w.deep.task_handler._pending:
                 ctx.violation('C14/race/deliveries-pending', f'{len(w.deep.task_handler._pending)} tasks pending after shutdown', case)
                 return
